@@ -420,6 +420,29 @@ def gen_C14(rng, tier, cfg):
                 ops.append("guts refill 0 0")
                 ops.append("guts refill 1 0")
                 stats["counters"] += 1
+        # systematic (rule 20): every counter value at which a cast of the 64-bit counter or of one of its 32-bit
+        # halves to a narrower / signed type changes character, and every power of two with its neighbours, minus
+        # 0..4 so that the carry lands in each lane of the batch; stream id likewise (word 13 = all ones / sign bit)
+        if be == backends[0] or tier != "quick":
+            cb = cast_boundaries(rng, 64)
+            for n, c in enumerate(cb):
+                for ctr in ([c] if n % 4 else [c, (c - 1 - n % 4) % 2**64, (c - 4) % 2**64]):
+                    dr = n % 3
+                    ops.append("guts new 0 %s %s" % (hx(struct_bytes(rng, 32)), hx(struct_bytes(rng, 8))))
+                    ops.append("guts set 0 0 %d" % ctr)
+                    if n % 2:
+                        ops.append("guts set 0 1 %d" % cb[(n * 7) % len(cb)])
+                    ops.append("guts clone 0 1")
+                    ops.append("guts refill4 0 %d" % dr)
+                    for _ in range(4):
+                        ops.append("guts refill 1 %d" % dr)
+                    ops.append("guts get 0 0")
+                    ops.append("guts get 1 0")
+                    ops.append("guts get 0 1")
+                    ops.append("guts eq64 0 1")
+                    ops.append("guts refill4 0 0")
+                    ops.append("guts refill 1 0")
+                    stats["cast_boundary_counters"] = stats.get("cast_boundary_counters", 0) + 1
     return ops, stats
 
 
